@@ -34,7 +34,7 @@ CHECKS = {
  "C06": ("exploration",
   "exhaustive enumeration of lexeme soups (in-process) and of builtin x arity x boundary-palette calls and cyclic-data uses in isolated worker processes with memory cap and watchdog",
   "Every concatenation of <= 4/5 lexemes through scan, parse_text, eval_text, prepare_eval+run_count and the highlighter at every cursor; every global procedure (enumerated from the VM) at arity 0..2/3 over a 48-value boundary palette and up to arity 3/5 over one value per kind (535k calls quick); cyclic structures through list? length equal? display write and as the value of an evaluation. Oracle: value or error, the error renders, and the same VM then evaluates (+ 1 2).",
-  "Allocation sizes > 10^6 excluded as the property states. Cycle-unsafe printing is recorded as known findings (exact keys).",
+  "Allocation sizes > 10^6 excluded as the property states. Cycle-unsafe printing is recorded as known findings (exact keys). After every malformed program the harness also asks for Vm::global_symbols().",
   "5.6"),
  "C07": ("fault_enumeration",
   "fault injection at every expression position x every fault kind of effectful sessions, compared with the reference machine and with fresh-VM stack traces / stack pointer / resource measurements",
@@ -105,7 +105,7 @@ CHECKS = {
  "C20": ("exploration",
          "exhaustive enumeration of all lexeme strings x all cursors against a reference bracket matcher",
          "Every string of <= 6 (quick) / <= 8 (thorough) lexemes over the property's alphabet is run with every cursor 0..len+2 through the real ReplHighlighter and compared with a 30-line reference matcher; multi-byte and far cursors on an extended alphabet. Exhaustive within the bound, which is the bound the property itself names.",
-         "lex::scan is trusted as tokeniser of the reference (C11's subject); cursor lookup rule mirrored from the implementation's documented fallback.",
+         "lex::scan is trusted as tokeniser of the reference (C11's subject); the cursor's bracket is the bracket at the cursor, else the bracket just before it, as the statement says (the reference first mirrored the implementation here and hid a defect: DESIGN.md section 9 item 17).",
          "5.20"),
 }
 
@@ -118,6 +118,16 @@ def main():
         if pid not in CHECKS:
             continue
         cat, tech, text, note, ref = CHECKS[pid]
+        # the statement of what a run enumerates is written by the machinery itself (coverage.rule of the evidence
+        # file); the hand-written summaries above date from round 1 and are kept only as a fallback
+        try:
+            ev = json.load(open(f"/verif/evidence/{pid}.json"))
+            rule = ev["coverage"].get("rule")
+            if rule:
+                text = (f"As enumerated by the committed {ev.get('tier', 'quick')}-tier run (coverage.rule of the evidence file): {rule} "
+                        f"The other tier enumerates the same families at the bounds of DESIGN.md table 8a.")
+        except Exception:
+            pass
         checks.append({
             "property_id": pid,
             "quick_cmd": f"./check {pid} --tier quick",
